@@ -50,6 +50,10 @@ pub struct CountUser {
     /// `==` goals of the program solved successfully on the path to this state (counted by a tick goal the
     /// harness puts behind every `==` in counter mode — independent of the hooks)
     pub eq_goals: usize,
+    /// hashes of the variables reported to `process_extension` on the path to this state: a variable is bound once, so it is
+    /// reported once ("exactly that unification's NEW bindings"; seeded change C22-m reported the aliased left operand again
+    /// instead of the variable it walked to)
+    pub ext_keys: Vec<u64>,
 }
 
 impl proto_vulcan::user::User for CountUser {
@@ -66,6 +70,22 @@ impl proto_vulcan::user::User for CountUser {
             if state.smap_ref().walk(k) == k {
                 EXT_VIOLATION.with(|v| *v.borrow_mut() = Some("process_extension was given a binding that is not in the substitution".to_string()));
             }
+        }
+        for (k, _) in extension.iter() {
+            use std::hash::{Hash, Hasher};
+            let mut h = std::collections::hash_map::DefaultHasher::new();
+            k.hash(&mut h);
+            let id = h.finish();
+            if state.user_state.ext_keys.contains(&id) {
+                EXT_VIOLATION.with(|v| {
+                    *v.borrow_mut() =
+                        Some("process_extension was given a binding for a variable that an earlier unification on this path had already bound and reported".to_string())
+                });
+            }
+            if !state.smap_ref().contains_key(k) {
+                EXT_VIOLATION.with(|v| *v.borrow_mut() = Some("process_extension was given a key that is not a key of the substitution".to_string()));
+            }
+            state.user_state.ext_keys.push(id);
         }
         state.user_state.ext_calls += 1;
         state.user_state.ext_total += n;
